@@ -213,7 +213,7 @@ class Fn:
                     bt = self.try_type(ast.BinOp(left=s.target, op=s.op, right=s.value))
                     self.note_type(s.target.id, bt)
                 elif isinstance(s, ast.For):
-                    if isinstance(s.target, ast.Name):
+                    if isinstance(s.target, ast.Name) and getattr(self, 'kinds', {}).get(s.target.id) != 'pair':
                         self.note_type(s.target.id, 'int')
             if before == self.types:
                 break
@@ -254,6 +254,8 @@ class Fn:
             return kinds[e.id]
         if isinstance(e, ast.Subscript) and isinstance(e.value, ast.Name) and kinds.get(e.value.id) == 'pair':
             return 'scalar'
+        if isinstance(e, ast.Subscript) and isinstance(e.value, ast.Name) and kinds.get(e.value.id) == 'pairs':
+            return 'pair'
         return None
 
     def const_of(self, e):
@@ -269,7 +271,7 @@ class Fn:
             k = self.kind_of(e.args[0])
             tgt = ast.unparse(e.args[1])
             if k is not None and tgt.endswith('Sequence'):
-                return k == 'pair'
+                return k in ('pair', 'pairs')
             return None
         if isinstance(e, ast.UnaryOp) and isinstance(e.op, ast.Not):
             c = self.const_of(e.operand)
@@ -710,7 +712,8 @@ class Fn:
         if isinstance(f, ast.Attribute) and isinstance(f.value, ast.Name) and f.value.id == 'self':
             # a method of the same object: the specialisation is chosen by the kinds of the arguments
             kinds = tuple(self.kind_of(a) or ('none' if (isinstance(a, ast.Constant) and a.value is None) else 'scalar') for a in e.args)
-            target = self.tr.methods.get((f.attr, kinds)) or (self.tr.methods.get((f.attr, ('none',))) if not e.args else None)
+            cls_ = getattr(self, 'cls', None)
+            target = self.tr.methods.get((cls_, f.attr, kinds)) or (self.tr.methods.get((cls_, f.attr, ('none',))) if not e.args else None)
             if target is None:
                 self.fail(e, 'call of self.%s%s: no translated specialisation' % (f.attr, kinds))
             parts = []
@@ -847,6 +850,25 @@ class Fn:
             if s.orelse:
                 self.fail(s, 'for-else')
             it = s.iter
+            if isinstance(it, ast.Name) and getattr(self, 'kinds', {}).get(it.id) == 'pairs' and isinstance(s.target, ast.Name):
+                # `for ival in interval:` over a list of (a, b) pairs, given as the two parallel lists
+                # `interval_lo`, `interval_hi`: an index loop that binds the pair's two components
+                v, L = s.target.id, it.id
+                self.nloop_pairs = getattr(self, 'nloop_pairs', 0) + 1
+                kname = '_k%d' % self.nloop_pairs
+                self.kinds[v] = 'pair'
+                for fld, src_ in ((v + '_0', L + '_lo'), (v + '_1', L + '_hi')):
+                    if fld not in self.types:
+                        self.types[fld] = 'rat'; self.order.append(fld)
+                if kname not in self.types:
+                    self.types[kname] = 'int'; self.order.append(kname)
+                head = [ast.Assign(targets=[ast.Name(id=v + '_0', ctx=ast.Store())],
+                                   value=ast.Subscript(value=ast.Name(id=L + '_lo', ctx=ast.Load()), slice=ast.Name(id=kname, ctx=ast.Load()), ctx=ast.Load()), lineno=s.lineno),
+                        ast.Assign(targets=[ast.Name(id=v + '_1', ctx=ast.Store())],
+                                   value=ast.Subscript(value=ast.Name(id=L + '_hi', ctx=ast.Load()), slice=ast.Name(id=kname, ctx=ast.Load()), ctx=ast.Load()), lineno=s.lineno)]
+                rng_ = ast.Call(func=ast.Name(id='range', ctx=ast.Load()), args=[ast.Call(func=ast.Name(id='len', ctx=ast.Load()), args=[ast.Name(id=L + '_lo', ctx=ast.Load())], keywords=[])], keywords=[])
+                new_for = ast.For(target=ast.Name(id=kname, ctx=ast.Store()), iter=rng_, body=head + list(s.body), orelse=[], lineno=s.lineno)
+                return self.block([new_for] + rest, ind, assigned)
             if not (isinstance(it, ast.Call) and isinstance(it.func, ast.Name) and it.func.id in ('range', 'xrange')
                     and len(it.args) == 1 and isinstance(s.target, ast.Name)):
                 self.fail(s, 'for loop other than `for i in range(n)`')
@@ -1213,6 +1235,15 @@ class Fn:
                     self.fail(s, 'nested function uses outer names %s' % sorted(free))
                 out.append(sub.translate())
                 self.nested[s.name] = sub
+        if getattr(self, 'kinds', None):
+            # loops over a list of pairs bind a pair: known before the types of the locals are inferred
+            for n in ast.walk(node):
+                if isinstance(n, ast.For) and isinstance(n.iter, ast.Name) and self.kinds.get(n.iter.id) == 'pairs' \
+                        and isinstance(n.target, ast.Name):
+                    self.kinds[n.target.id] = 'pair'
+                    for fld in (n.target.id + '_0', n.target.id + '_1'):
+                        if fld not in self.types:
+                            self.types[fld] = 'rat'; self.order.append(fld)
         self.infer_locals()
         if self.tr.pyx:
             self.check_cdef_types()
@@ -1431,21 +1462,35 @@ class ClassTranslator(Translator):
         ('DiscreteFunc.py', 'DiscreteFunc', 'integral', 'disc_integral_all', ['x', 'y', 'mp'], [('interval', 'none')]),
         ('DiscreteFunc.py', 'DiscreteFunc', 'integral', 'disc_integral', ['x', 'y', 'mp'], [('interval', 'pair')]),
     ]
+    # list-of-intervals forms (third file, imports Gen/Classes.lean for the single-interval `integral` they call)
+    SPECS3 = [
+        ('PieceWiseConstFunc.py', 'PieceWiseConstFunc', 'avrg', 'pwc_avrg_list', ['x', 'y'], [('interval', 'pairs')]),
+        ('PieceWiseLinFunc.py', 'PieceWiseLinFunc', 'avrg', 'pwl_avrg_list', ['x', 'y1', 'y2'], [('interval', 'pairs')]),
+        ('DiscreteFunc.py', 'DiscreteFunc', 'integral', 'disc_integral_list', ['x', 'y', 'mp'], [('interval', 'pairs')]),
+    ]
     # a second generated file, so that the text of Gen/Classes.lean (and the proofs about it) stays as it is
     SPECS2 = [
         ('DiscreteFunc.py', 'DiscreteFunc', 'get_plottable_data', 'disc_plottable', ['x', 'y', 'mp'], [('averaging_window_size', 'int')]),
     ]
 
     def run(self, second=False):
+        specs = {False: self.SPECS, True: self.SPECS2, 3: self.SPECS3}[second]
+        fname_out = {False: 'Classes', True: 'Classes2', 3: 'Classes3'}[second]
         out = ['/-\n  Gen/%s.lean — GENERATED by harness/py2lean.py from the function classes of /repo\n'
                '  (pyspike/PieceWiseConstFunc.py, PieceWiseLinFunc.py, DiscreteFunc.py). Do not edit.\n-/\n'
                'import PySpikeVerif.Gen.Prelude\n'
-               'set_option linter.unusedVariables false\n' % ('Classes2' if second else 'Classes') +
-               source_digest(self.repo, sorted({'pyspike/' + sp[0] for sp in (self.SPECS2 if second else self.SPECS)})) +
+               'set_option linter.unusedVariables false\n' % fname_out +
+               source_digest(self.repo, sorted({'pyspike/' + sp[0] for sp in specs})) +
                'namespace PySpike.GenCls\nopen PySpike.Gen\n']
         self.methods = {}
         trees = {}
-        for fname, cls, meth, lname_, fields, pk in (self.SPECS2 if second else self.SPECS):
+        if second == 3:
+            # the methods of the first file are callable from here: translate them silently to fill the table
+            first = ClassTranslator(self.repo)
+            first.run(second=False)
+            self.methods = dict(first.methods)
+            out[0] = out[0].replace('import PySpikeVerif.Gen.Prelude\n', 'import PySpikeVerif.Gen.Prelude\nimport PySpikeVerif.Gen.Classes\n')
+        for fname, cls, meth, lname_, fields, pk in specs:
             if fname not in trees:
                 trees[fname] = ast.parse(open(os.path.join(self.repo, 'pyspike', fname), 'rb').read().decode('utf-8'))
             check_no_rebinding(trees[fname], [meth], fname, cls=cls)
@@ -1473,17 +1518,20 @@ class ClassTranslator(Translator):
                     params.append((p_, 'rat'))
                 elif k == 'int':
                     params.append((p_, 'int'))
+                elif k == 'pairs':
+                    params += [(p_ + '_lo', 'list'), (p_ + '_hi', 'list')]
             dfl = [ast.unparse(d) for d in node.args.defaults]
             node.args.args = [ast.arg(arg=n_) for n_, _ in params]
             node.args.defaults = []
             fn = Fn(self, lname_, node, params)
             fn.sig_note = ('; Python signature %s.%s(%s), defaults: %s' % (cls, meth, ', '.join(argn), ', '.join(dfl))) if dfl else ''
             fn.kinds = kinds
+            fn.cls = cls
             fn.self_fields = ['self_' + f_ for f_ in fields]
             self.sigs = {}
             out.append('-- %s.%s  (%s)\n' % (cls, meth, ', '.join('%s: %s' % (a_, b_) for a_, b_ in pk)))
             out.append(fn.translate())
-            self.methods[(meth, tuple(k for _, k in pk))] = fn
+            self.methods[(cls, meth, tuple(k for _, k in pk))] = fn
         out.append('end PySpike.GenCls\n')
         return '\n'.join(out)
 
@@ -1498,6 +1546,10 @@ def generate_classes(repo='/repo'):
 
 def generate_classes2(repo='/repo'):
     return ClassTranslator(repo).run(second=True)
+
+
+def generate_classes3(repo='/repo'):
+    return ClassTranslator(repo).run(second=3)
 
 
 class IsiLengthsTranslator(Translator):
@@ -1532,7 +1584,7 @@ def generate_pyx(repo='/repo'):
 if __name__ == '__main__':
     repo = sys.argv[1] if len(sys.argv) > 1 else '/repo'
     try:
-        sys.stdout.write(generate_pyx(repo) if (len(sys.argv) > 2 and sys.argv[2] == 'pyx') else generate_classes(repo) if (len(sys.argv) > 2 and sys.argv[2] == 'classes') else generate_isi_lengths(repo) if (len(sys.argv) > 2 and sys.argv[2] == 'isi_lengths') else generate_classes2(repo) if (len(sys.argv) > 2 and sys.argv[2] == 'classes2') else generate(repo))
+        sys.stdout.write(generate_pyx(repo) if (len(sys.argv) > 2 and sys.argv[2] == 'pyx') else generate_classes(repo) if (len(sys.argv) > 2 and sys.argv[2] == 'classes') else generate_isi_lengths(repo) if (len(sys.argv) > 2 and sys.argv[2] == 'isi_lengths') else generate_classes2(repo) if (len(sys.argv) > 2 and sys.argv[2] == 'classes2') else generate_classes3(repo) if (len(sys.argv) > 2 and sys.argv[2] == 'classes3') else generate(repo))
     except Untranslatable as ex:
         sys.stderr.write('Untranslatable: %s\n' % ex)
         sys.exit(3)
